@@ -437,12 +437,15 @@ static void SwitchTo_F8(void) {
     ValidSegs          = (1 << SegCode) | (1 << SegData) | (1 << SegIO);
     Grans[SegCode]     = 1;
     ListGrans[SegCode] = 1;
+    SegInits[SegCode]  = 0;
     SegLimits[SegCode] = IntTypeDefs[CodeIntType].Max;
     Grans[SegData]     = 1;
     ListGrans[SegData] = 1;
+    SegInits[SegData]  = 0;
     SegLimits[SegData] = 0x3f;
     Grans[SegIO]       = 1;
     ListGrans[SegIO]   = 1;
+    SegInits[SegIO]    = 0;
     SegLimits[SegIO]   = 0xff;
 
     MakeCode   = MakeCode_F8;
